@@ -5,7 +5,9 @@ from vlib import *
 def both(cases, impl=None, model=None, shards=NPROC, timeout=1800):
     impl = impl or harness("impl_driver")
     model = model or model_driver()
-    rc1, o1, e1 = run_lines(impl, cases, shards=shards, timeout=timeout)
+    crashed, o1 = run_lines_robust(impl, cases, shards=shards, timeout=timeout)
+    rc1 = crashed[0][1] if crashed else 0
+    e1 = crashed[0][2] if crashed else ""
     rc2, o2, e2 = run_lines(model, cases, shards=shards, timeout=timeout)
     if rc2 != 0:
         raise BuildError("model driver failed rc=%d: %s" % (rc2, e2[-800:]))
